@@ -61,10 +61,16 @@ def corner_cases(tier):
             b.mkfile("R/a.txt", 1)
             b.mkfile("R/d/b.txt", 2)
             r = b.run("create", root="R", h=["md5"])
+            if sym.flag("second_generation_before_rename"):
+                r = b.run("create", root="R", h=["md5", "sha1"])
             b.rename("R/a.txt", "R/d/a renamed.txt")
             if sym.flag("rename_dir"):
                 b.rename("R/d", "R/e")
             r = b.run("create", root="R", h=["md5"], dr=True)
+            b.require(r.exit in (0, 10), "no-internal-error", "create -dr: %s" % r)  # 10: a renamed directory is reported as missing (outside C17)
+            if sym.flag("then_flatten"):
+                r = b.run("flatten", root="R", dest="OUT")
+                b.require(r.exit == 0 and r.exc is None, "flatten-exit-0", "after renames: %s" % r)
         elif case in ("flatten", "flatten-failed"):
             b.mkfile("R/a.txt", 1)
             b.mkfile("R/d/b.txt", 2)
